@@ -314,18 +314,51 @@ func checkC06(c *Ctx) {
 	if pick != nil {
 		okWatch := false
 		var watcher *ssa.Function
-		for _, a := range hc.AnonFuncs {
-			started := false
-			eachInstr(hc, func(_ *ssa.BasicBlock, _ int, in ssa.Instruction) {
-				if g, ok := in.(*ssa.Go); ok {
-					if funcValue(g.Call.Value) == a {
-						started = true
-					}
+		// canonical handler-side value of something the watcher uses: captured variables go to their cell's single
+		// store, parameters of a watcher method go to the argument of the go statement
+		canonical := func(v ssa.Value, w *ssa.Function, goIn *ssa.Go) ssa.Value {
+			v = stripConv(v)
+			if prm, ok := v.(*ssa.Parameter); ok && prm.Parent() == w {
+				idx := paramIndex(w, prm)
+				if idx < len(goIn.Call.Args) {
+					v = stripConv(goIn.Call.Args[idx])
 				}
-			})
-			if !started {
-				continue
 			}
+			if u, ok := v.(*ssa.UnOp); ok && u.Op == token.MUL {
+				cell := cellKey(v)
+				if al, isAl := cell.(*ssa.Alloc); isAl {
+					var st *ssa.Store
+					n := 0
+					for _, r := range *al.Referrers() {
+						if s2, isSt := r.(*ssa.Store); isSt && s2.Addr == ssa.Value(al) {
+							st, n = s2, n+1
+						}
+					}
+					if n == 1 {
+						return stripConv(st.Val)
+					}
+					return al
+				}
+			}
+			return v
+		}
+		type cand struct {
+			fn   *ssa.Function
+			goIn *ssa.Go
+		}
+		var cands []cand
+		eachInstr(hc, func(_ *ssa.BasicBlock, _ int, in ssa.Instruction) {
+			if g, ok := in.(*ssa.Go); ok {
+				if f := funcValue(g.Call.Value); f != nil {
+					cands = append(cands, cand{f, g})
+				} else if f := calleeFn(&g.Call); f != nil && f.Blocks != nil {
+					cands = append(cands, cand{f, g})
+				}
+			}
+		})
+		var watchGo *ssa.Go
+		for _, cd := range cands {
+			a := cd.fn
 			eachInstr(a, func(_ *ssa.BasicBlock, _ int, in ssa.Instruction) {
 				sel, ok := in.(*ssa.Select)
 				if !ok {
@@ -339,23 +372,8 @@ func checkC06(c *Ctx) {
 					if g := calleeFn(call.Common()); g == nil || g.Name() != "WaitRemoved" {
 						continue
 					}
-					// receiver is the picked host (captured)
-					// the receiver is the picked host: a captured variable whose cell holds the PickHost result
-					recvOK := derives(call.Call.Args[0], func(v ssa.Value) bool {
-						fv, ok := v.(*ssa.FreeVar)
-						if !ok {
-							return false
-						}
-						b := cellKey(fv)
-						if al, isAl := b.(*ssa.Alloc); isAl {
-							for _, r := range *al.Referrers() {
-								if st, isSt := r.(*ssa.Store); isSt && st.Addr == ssa.Value(al) && st.Val == ssa.Value(pick) {
-									return true
-								}
-							}
-						}
-						return b == ssa.Value(pick)
-					})
+					// the receiver is the picked host
+					recvOK := canonical(call.Call.Args[0], a, cd.goIn) == ssa.Value(pick)
 					cb := selectCaseBlock(sel, k)
 					ncl := 0
 					if cb != nil {
@@ -368,6 +386,7 @@ func checkC06(c *Ctx) {
 					if recvOK && ncl >= 2 {
 						okWatch = true
 						watcher = a
+						watchGo = cd.goIn
 					}
 				}
 			})
@@ -385,19 +404,12 @@ func checkC06(c *Ctx) {
 					if call, ok := st.Chan.(*ssa.Call); ok && calleeFn(call.Common()) != nil && calleeFn(call.Common()).Name() == "WaitRemoved" {
 						continue
 					}
-					// captured channel: find where it is closed
-					u, ok := st.Chan.(*ssa.UnOp)
-					var cellName string
-					if ok {
-						if fv, ok := u.X.(*ssa.FreeVar); ok {
-							cellName = fv.Name()
+					exitCh := canonical(st.Chan, watcher, watchGo)
+					if _, isMk := exitCh.(*ssa.MakeChan); !isMk {
+						if _, isAl := exitCh.(*ssa.Alloc); !isAl {
+							lifeOK, why = false, "exit case is not a channel of the handler"
+							continue
 						}
-					} else if fv, ok := st.Chan.(*ssa.FreeVar); ok {
-						cellName = fv.Name()
-					}
-					if cellName == "" {
-						lifeOK, why = false, "exit case is not a channel of the handler"
-						continue
 					}
 					closedInHandler, closedElsewhere := false, false
 					for _, f := range withAnon(hc) {
@@ -405,24 +417,7 @@ func checkC06(c *Ctx) {
 							if !isBuiltin(x, "close") {
 								return
 							}
-							arg := callOf(x).Args[0]
-							nm := ""
-							if uu, ok := arg.(*ssa.UnOp); ok {
-								if fv, ok := uu.X.(*ssa.FreeVar); ok {
-									nm = fv.Name()
-								}
-								if al, ok := uu.X.(*ssa.Alloc); ok {
-									nm = al.Comment
-								}
-							}
-							if fv, ok := arg.(*ssa.FreeVar); ok {
-								nm = fv.Name()
-							}
-							if mk, ok := arg.(*ssa.MakeChan); ok {
-								nm = mk.Name()
-								_ = mk
-							}
-							if nm != cellName {
+							if canonical(callOf(x).Args[0], nil, nil) != exitCh {
 								return
 							}
 							_, isDefer := x.(*ssa.Defer)
